@@ -24,5 +24,6 @@ case "$id" in
   C13|C14) build build/multidim; exec ./build/multidim --prop "$id" --tier "$tier" --deadline "$DL" ;;
   C11|C12) build build/mapped; exec ./build/mapped --prop "$id" --tier "$tier" --deadline "$DL" ;;
   C18) build build/cabi; exec ./build/cabi --prop "$id" --tier "$tier" --deadline "$DL" ;;
+  C19) build build/copymove_asan; exec ./build/copymove_asan --prop "$id" --tier "$tier" --deadline "$DL" 2> "build/asan_$id.log" ;;
   *) echo "unknown property $id"; exit 2 ;;
 esac
